@@ -883,7 +883,7 @@ where
 		Some(tx) => {
 			let mut slate = Slate::blank(2, false);
 			slate.tx = Some(tx.clone());
-			slate.fee_fields = tx.aggregate_fee_fields().unwrap(); // apply fee mask past HF4
+			slate.fee_fields = tx.aggregate_fee_fields()?; // apply fee mask past HF4
 			slate.id = id;
 			slate.offset = tx.offset;
 			slate.state = SlateState::Standard3;
